@@ -1,0 +1,70 @@
+//go:build verif
+
+// Contracts for package fscache, checked by /verif/bin/govc (see /verif/DESIGN.md).
+package fscache
+
+// The file-system backend is specified against a ghost file system (declared with the
+// os.Root contracts in /verif/contracts/stdlib/std.go): fsHas[name] says that a regular
+// file called name exists under the cache root and fsData[name] is its content, as a byte
+// string. bytesOf(b) is the content of a byte slice as a byte string. Directories are not
+// part of the ghost state; that a file name never has to be a directory name as well is
+// the prefix-freeness of fragmentFileName below.
+
+// fileNameFor(key): the name the configured fileNamer gives a key (fragmentFileName).
+//@ spec func fileNameFor(key string) string
+//@ iface fileNamer.FileName(f, key)
+//@   pure
+//@   ensures result == fileNameFor(key)
+
+// AES-GCM seen from the backend: authentic(ct) says ct is the output of Encrypt under the
+// configured key and plainOf(ct) is the plaintext it was made from.
+//@ spec func authentic(ct string) bool
+//@ spec func plainOf(ct string) string
+//@ iface encryptor.Encrypt(e, data)
+//@   pure
+//@   ensures result1 == nil ==> authentic(bytesOf(result0)) && plainOf(bytesOf(result0)) == bytesOf(data)
+//@ iface encryptor.Decrypt(e, data)
+//@   pure
+//@   ensures result1 == nil ==> authentic(bytesOf(data)) && bytesOf(result0) == plainOf(bytesOf(data))
+
+//@ func (*fsCache).get
+//@   property C14 C17
+//@   requires c != nil && c.root != nil && c.fn != nil
+//@   assigns now
+//@   ensures !fsHas[fileNameFor(key)] ==> result1 != nil && notExist(result1)                                  # name: absent-is-not-exist
+//@   ensures result1 == nil ==> fsHas[fileNameFor(key)]                                                        # name: only-existing-files
+//@   ensures result1 == nil && c.enc == nil ==> bytesOf(result0) == fsData[fileNameFor(key)]                   # name: returns-the-file-bytes
+//@   ensures result1 == nil && c.enc != nil ==> authentic(fsData[fileNameFor(key)]) && bytesOf(result0) == plainOf(fsData[fileNameFor(key)])   # name: decrypts-and-authenticates   props: C14 C17
+
+//@ func (*fsCache).set
+//@   property C14 C17
+//@   requires c != nil && c.root != nil && c.fn != nil
+//@   assigns fsHas[fileNameFor(key)], fsData[fileNameFor(key)]
+//@   ensures result == nil ==> fsHas[fileNameFor(key)]                                                         # name: file-exists-after-set
+//@   ensures result == nil && c.enc == nil ==> fsData[fileNameFor(key)] == bytesOf(entry)                      # name: writes-exactly-the-bytes
+//@   ensures result == nil && c.enc != nil ==> authentic(fsData[fileNameFor(key)]) && plainOf(fsData[fileNameFor(key)]) == bytesOf(entry)   # name: writes-only-ciphertext   props: C14 C17
+
+//@ func (*fsCache).delete
+//@   property C14
+//@   requires c != nil && c.root != nil && c.fn != nil
+//@   assigns fsHas[fileNameFor(key)]
+//@   ensures result == nil ==> old(fsHas[fileNameFor(key)]) && !fsHas[fileNameFor(key)]                         # name: removes-that-file
+//@   ensures !old(fsHas[fileNameFor(key)]) ==> result != nil && notExist(result)                               # name: absent-is-not-exist
+//@   ensures result != nil ==> fsHas[fileNameFor(key)] == old(fsHas[fileNameFor(key)])                         # name: failed-delete-changes-nothing
+
+// File names. A name is a path of components; pathLen/pathPart (assumed contract of
+// filepath.Join in std.go) give its components. A component is a directory name iff it ends
+// in the marker '~' (126). wfName: every component but the last is a directory name and the
+// last one - the file - is not. names-prefix-free: with that shape the file component of one
+// name never coincides with the directory component another name has at the same depth, so
+// no key's file has to be another key's directory, whatever the keys are.
+//@ spec func isDirName(s string) bool = len(s) > 0 && s[len(s)-1] == 126
+//@ spec func wfName(r string) bool = pathLen(r) >= 1 && (forall j int :: 0 <= j && j < pathLen(r)-1 ==> isDirName(pathPart(r, j))) && !isDirName(pathPart(r, pathLen(r)-1))
+//@ lemma names-prefix-free: forall a string, b string :: wfName(a) && wfName(b) && pathLen(a) < pathLen(b) ==> pathPart(a, pathLen(a)-1) != pathPart(b, pathLen(a)-1)
+//@   property C14
+
+//@ func fragmentFileName
+//@   property C14
+//@   ensures wfName(result)                                                                # name: directories-marked-file-unmarked
+//@   loop 0 invariant 0 <= i && len(encoded) - i >= 1 && b64Text(encoded)
+//@   loop 0 invariant forall j int :: 0 <= j && j < len(parts) ==> isDirName(parts[j])
